@@ -102,8 +102,8 @@ class Case(object):
 def build_cases(E, ctxs, use_model, keep_far=None, variant=None):
     """-> list of Case (without .actual), or None when the model excludes E.
     Cases that exercise a known defect which can corrupt the process or fail to terminate
-    (`far-upvalue`: a closure captures a local whose slot is above 255; `keys-odd-args`: odd number of
-    key/value arguments) are marked .hazard and are executed only by the dedicated family (keep_far=name).
+    (`far-upvalue`: a closure captures a local whose slot is above 255; `far-error-operand`; `far-rest-destructure`)
+    are marked .hazard and are executed only by the dedicated family (keep_far=name).
     variant(E, ctx) -> E' lets the classification use a per-context rewrite of E."""
     cases = []
     rendered = None if variant else gen.render_expr(E)
@@ -275,10 +275,7 @@ def work(task):
         farskip += len(ctxs) - len(cases)
         built.append((lo + idx, E, cases))
     flat = [c for _, _, cs in built for c in cs]
-    if F.keep_far == "keys-odd-args":
-        run_cases(flat, chunk=1, count_bad=False)
-    else:
-        run_cases(flat)
+    run_cases(flat)
     res = dict(exprs=len(built), skipped=skipped, programs=len(flat), failing=[], outcomes=set(),
                steps=sum(c.steps for c in flat), errors=0, farskip=farskip)
     for idx, E, cases in built:
@@ -430,9 +427,14 @@ def main():
     chk.assume("the Janet parser, `compile`, fibers, debug/stack and the canonical printer of the driver are trusted "
                "only as far as they transport the observation; the reference evaluator (model.py) is the oracle")
     chk.assume("sizes beyond the stated bound and constructs outside each family's grammar are not covered")
-    chk.assume("cases that exercise a known defect able to corrupt the process or to loop for ever (far-upvalue, "
-               "far-error-operand, far-rest-destructure, keys-odd-args) are executed only in the dedicated families")
+    chk.assume("cases that exercise a known defect able to derail other cases (far-upvalue: may loop for ever; "
+               "far-error-operand, far-rest-destructure: pervasive in the 260-locals contexts) are executed only in the "
+               "dedicated families; they are counted as cases_not_run_known_hazard")
     vjanet("fast")
+    t_start = time.time()       # the budget governs the exploration, not the (cached) build
+
+    def spent():
+        return time.time() - t_start
     only = chk.args.only.split(",") if chk.args.only else None
     ctxm = multiprocessing.get_context("fork")
     reported = {}
@@ -457,14 +459,14 @@ def main():
             continue
         nctx = len(F.contexts(tier))
         t0 = time.time()
-        if rank == 0 and chk.out_of_time(0.75):
+        if rank == 0 and spent() > chk.budget * 0.75:
             chk.cap("%s: %s not run (time budget exhausted; machine slower than the tier was sized for)" % (fam, F.describe(lv)))
             capped.add(fam)
             continue
         if rank > 0:
             est_n = F.count(tier, lv) * nctx
             est = est_n / rate if rate else 0
-            if chk.elapsed() + est * 1.25 > chk.budget * 0.9:
+            if spent() + est * 1.25 > chk.budget * 0.9:
                 chk.cap("%s: size %s not run (estimated %d programs, %.0fs; budget)" % (fam, lv, est_n, est))
                 capped.add(fam)
                 continue
@@ -490,7 +492,7 @@ def main():
                 failing.extend(r["failing"])
             failing.sort(key=lambda e: e[0])
             cl = {}
-            if failing:
+            if failing and not F.keep_far:
                 ctasks = [failing[i:i + 24] for i in range(0, len(failing), 24)]
                 for r in pool.imap_unordered(classify_work, ctasks):
                     for idx, sig in r:
@@ -514,6 +516,11 @@ def main():
                 if s not in reported:
                     reported[s] = True
                     E = exprs[idx]
+                    # a violation must reproduce in a fresh process before it is printed
+                    again = build_cases(E, F.contexts(tier), F.use_model, F.keep_far)
+                    run_cases(again, count_bad=False)
+                    if not judge(again, F.use_model):
+                        raise HarnessError("violation %s of %s did not reproduce: %s" % (s, model.rtext(E), probs[:2]))
                     chk.violation(sig=s,
                                   what="family %s, expression %s: %s" % (fam, model.rtext(E), "; ".join(
                                       "%s/%s in %s: %s" % p for p in probs[:3])),
